@@ -226,14 +226,20 @@ CLAIMED = {
          'normalize_path(path) (function TRANSLATED from route.py) with the same bindings - partial: no slash run inside the '
          'span of a */+ binding (known finding F3, witness C05_tolerant_slashes_refuted); sign-space integers do not convert; '
          'leading-slash/double-slash/duplicate/unknown-type/unknown-operator patterns are InvalidPattern and accepted patterns '
-         'have none of these defects; operator tables regenerated and proved consistent with the regex quantifiers. Tie: '
-         'translator + exhaustive differential run: every string of length <= 4 (5 thorough) over an 11-symbol alphabet x '
+         'have none of these defects; operator tables regenerated and proved consistent with the regex quantifiers. '
+         'The regular expression _compile_path_pattern assembles is itself in the model (Model/RouteRx.route_rx, compared as a '
+         'tree with Python\'s own parse of BoundRoute.regex.pattern on every run): C05_regex_language - for every accepted '
+         'pattern, both slash modes and every path, it matches the whole path iff the segments can be assigned to the elements; '
+         'C05_engine_captures - the first successful path of a backtracking engine (Model/Backtrack.v, proved to enumerate '
+         'exactly the language) gives every binding group the tokens of the token-level matcher; C05_int_failures_exact - '
+         'on the regenerated int lexeme int() fails exactly for sign-space and > 4300 digits. Tie: '
+         'translator + regex-tree comparison + exhaustive differential run: every string of length <= 4 (5 thorough) over an 11-symbol alphabet x '
          'several hundred patterns x 3 slash modes against BoundRoute.match_path (values and types).'),
-   note=COMMON_NOTE + 'Modelled not verified: Python\'s re engine (the claim that the assembled regex behaves like the token-level '
-        'greedy matcher is validated exhaustively on short paths and by long random paths, not proved - DESIGN.md C05_regex_language '
-        'is pending), int()/float()/str() builtins, \\d restricted to ASCII digits, BINDING regex modelled for the quantifier\'s grammar only.',
-   technique='Coq proof (soundness/completeness/greediness of the matcher vs a declarative assignment relation; regex derivative correctness; string lemmas tying tokenise to the translated normalize_path) + translator + exhaustive small-scope differential check',
-   design='6/C05'),
+   note=COMMON_NOTE + 'Modelled not verified: that Python\'s re IS a backtracking engine with the search order of Model/Backtrack.v and that '
+        're._parser reads a pattern as the engine does (what such an engine does on the assembled expression is proved, DESIGN.md 19; the '
+        'exhaustive comparison on short paths and long random paths checks the residue), int()/float()/str() builtins, \\d restricted to ASCII digits, BINDING regex modelled for the quantifier\'s grammar only.',
+   technique='Coq proof (soundness/completeness/greediness of the matcher vs a declarative assignment relation; regex derivative correctness; language of the assembled route expression; first successful path of a backtracking engine; string lemmas tying tokenise to the translated normalize_path) + translator + regex-tree correspondence + exhaustive small-scope differential check',
+   design='6/C05, 19'),
  'C06': dict(
    text=('Theorems (Props/C06.v) over a Gallina transcription of Application.dispatch / DispatchState / the catch-all '
          'route / Route.__init__ method normalisation / match_method: for every routing table of any length, method, '
